@@ -18,6 +18,12 @@ def gen_cases(run):
         top, _ = parse_tree(tree, 0)
         ids = sorted(k["id"] for k in top["kids"])
         if len(set(ids)) != len(ids): continue
+        # half of the item sets keep their ids in a NON-ascending order along the collection (then the id-sorted view used for the
+        # HashMap is not the item order, so the HashMap is left out): an ordered map must iterate in KEY order, not in id order
+        shuffled = rng.random() < 0.5 and len(ids) >= 2
+        if shuffled:
+            while ids == sorted(ids): rng.shuffle(ids)
+            dist["item_sets_with_unsorted_ids"] = dist.get("item_sets_with_unsorted_ids", 0) + 1
         q = 3
         for k, kid in enumerate(top["kids"]):
             tree[q + 1] = ids[k] if kid["kind"] != 0 else ids[k]
@@ -26,7 +32,7 @@ def gen_cases(run):
         for _ in range(rng.randrange(1, 4)):
             data = data_for(rng, g, 14, p_true=rng.choice([0.7, 0.95, 1.0]), p_err=rng.choice([0, 0.05]))
             base_calls.append(data)
-        for cont in range(5):
+        for cont in range(4 if shuffled else 5):
             calls = []
             for data in base_calls:
                 if cont == 4:
